@@ -435,6 +435,30 @@ static void checkC04(Ctx& c, long idx, Rng& r) {
     Vector_<Vec3> JSud, JSDu; matter.multiplyByStationJacobian(s, bodies, stations, udot, JSud); matter.calcBiasForStationJacobian(s, bodies, stations, JSDu);
     Vector JSDuFlat; matter.calcBiasForStationJacobian(s, bodies, stations, JSDuFlat);
     Vector_<SpatialVec> JFud, JFDu; matter.multiplyByFrameJacobian(s, bodies, stations, udot, JFud); matter.calcBiasForFrameJacobian(s, bodies, stations, JFDu);
+    Vector JFDuFlat; matter.calcBiasForFrameJacobian(s, bodies, stations, JFDuFlat);
+    // (4) independent anchor for Jdot*u: the reported body accelerations must be the time derivative of the
+    // reported body velocities along the motion (q,u)(t) with qdot=N u, qdotdot and udot as realized.
+    // (Forward dynamics, inverse dynamics, the bias operators and the reported A_GB all share HDot,
+    // so only a finite difference of velocities can see an error there.)
+    {
+        const Vector q0 = s.getQ(), u0 = s.getU(), qd = s.getQDot(), qdd = s.getQDotDot(), ud = udot;
+        auto velAt = [&](double h, std::vector<SpatialVec>& V) {
+            State t(s); t.updQ() = q0 + h * qd + (0.5 * h * h) * qdd; t.updU() = u0 + h * ud;
+            k.m.sys.realize(t, Stage::Velocity);
+            V.resize(nb); for (int b = 0; b < nb; ++b) V[b] = matter.getMobilizedBody(MobilizedBodyIndex(b)).getBodyVelocity(t);
+        };
+        double worst = 0, worstH = 0; bool consistent = true;
+        for (int pass = 0; pass < 2; ++pass) {
+            double h = pass ? 5e-6 : 1e-5; std::vector<SpatialVec> Vp, Vm; velAt(h, Vp); velAt(-h, Vm);
+            double e = 0;
+            for (int b = 0; b < nb; ++b) e = std::max(e, spMax((Vp[b] - Vm[b]) / (2 * h) - matter.getMobilizedBody(MobilizedBodyIndex(b)).getBodyAcceleration(s)));
+            (pass ? worstH : worst) = e;
+        }
+        double fdtol = 2e-6 * ascale * (1 + vscale);
+        if (std::fabs(worst - worstH) > fdtol / 2 && std::max(worst, worstH) <= fdtol) consistent = true;   // both small
+        if (std::fabs(worst - worstH) > fdtol / 2 && std::max(worst, worstH) > fdtol && std::min(worst, worstH) <= fdtol) { consistent = false; c.skip("fd-acceleration-h-vs-h/2-disagree"); }
+        if (consistent) c.check("FD:body-acceleration=d/dt-velocity", std::min(worst, worstH), fdtol, W("reported A_GB != finite difference of reported V_GB along the realized motion"));
+    }
     for (int t = 0; t < nt; ++t) {
         const MobilizedBody& mb = matter.getMobilizedBody(bodies[t]);
         Vec3 aref = mb.findStationAccelerationInGround(s, stations[t]);
@@ -445,6 +469,8 @@ static void checkC04(Ctx& c, long idx, Rng& r) {
         c.check("stationJ:bias", (JSud[t] + JSDu[t] - aind).norm(), atol, W("JS*udot + bias != station acceleration", t));
         c.check("stationJ:bias-flat", (Vec3(JSDuFlat[3 * t], JSDuFlat[3 * t + 1], JSDuFlat[3 * t + 2]) - JSDu[t]).norm(), atol, W("flat station bias differs", t));
         c.check("frameJ:bias", std::max((JFud[t][0] + JFDu[t][0] - A[0]).norm(), (JFud[t][1] + JFDu[t][1] - aind).norm()), atol, W("JF*udot + bias != frame acceleration", t));
+        { double e = 0; for (int i = 0; i < 6; ++i) e = std::max(e, std::fabs(JFDuFlat[6 * t + i] - JFDu[t][i / 3][i % 3]));
+          c.check("frameJ:bias-flat", e, atol, W("flat frame bias differs", t)); }
         if (t == 0) {
             c.check("stationJ:bias-single", (matter.calcBiasForStationJacobian(s, bodies[0], stations[0]) - JSDu[0]).norm(), atol, W("single-task station bias", t));
             SpatialVec fb = matter.calcBiasForFrameJacobian(s, bodies[0], stations[0]);
@@ -485,6 +511,23 @@ static void checkC14(Ctx& c, long idx, Rng& r) {
             presc[b] = kind; anyPresc = true;
         }
     }
+    // Constraints (every third case): their forces enter each body's balance and the free-body route.
+    int ncons = 0;
+    if (idx % 3 == 2) {
+        int want = r.integer(1, 2), nbod = (int)k.m.bodies.size();
+        for (int t = 0; t < want; ++t) {
+            int a = r.integer(-1, nbod - 1), b = r.integer(0, nbod - 1);
+            if (a == b) continue;
+            MobilizedBody& A = a < 0 ? (MobilizedBody&)k.m.matter.updGround() : k.m.bodies[a];
+            MobilizedBody& B = k.m.bodies[b];
+            switch (r.integer(0, 2)) {
+            case 0: Constraint::Rod(A, randVec3(r, .5), B, randVec3(r, .5), r.uni(0.5, 2)); break;
+            case 1: Constraint::Ball(A, randVec3(r, .5), B, randVec3(r, .5)); break;
+            default: Constraint::PointInPlane(A, randUnit(r), r.sym(1), B, randVec3(r, .5));
+            }
+            ++ncons;
+        }
+    }
     k.s = k.m.init();
     k.s.updTime() = r.uni(0, 2);
     randomQU(k.m, k.s, r, idx % 7 == 6);
@@ -507,6 +550,16 @@ static void checkC14(Ctx& c, long idx, Rng& r) {
     auto W = [&](const char* what, int b = -1) { return [=]() { return Json::obj().set("model", wit).set("what", what).set("body", b).set("q", jV(q0)).set("u", jV(u0v)).set("gravity", grav); }; };
     const Vector_<SpatialVec>& Fapp = k.m.sys.getRigidBodyForces(s, Stage::Dynamics);
     const Vector& fapp = k.m.sys.getMobilityForces(s, Stage::Dynamics);
+    if (!allFinite(s.getUDot())) { c.skip("nonfinite-udot"); return; }
+    // constraint forces in the sign convention of applied forces (documented: negate the multipliers)
+    Vector_<SpatialVec> Fcons(nb); Fcons.setToZero(); Vector fcons(nu); fcons.setToZero();
+    if (ncons) {
+        // an (almost) redundant or singular random constraint set yields multipliers of 1e10+ whose roundoff swamps
+        // every balance; that is a property of the generated problem, not of the code: inconclusive
+        double lmax = 0; for (int i = 0; i < s.getMultipliers().size(); ++i) lmax = std::max(lmax, std::abs(s.getMultipliers()[i]));
+        if (!(lmax <= 1e4)) { c.skip("ill-conditioned-constraints"); return; }
+        Vector neg = -1.0 * s.getMultipliers(); matter.calcConstraintForcesFromMultipliers(s, neg, Fcons, fcons); c.cover("with-constraints/" + std::to_string(ncons));
+    }
     Vector_<SpatialVec> RM, RMfb; matter.calcMobilizerReactionForces(s, RM); matter.calcMobilizerReactionForcesUsingFreebodyMethod(s, RMfb);
     double tolc = 1e-12 * cond + 1e-9;
     for (int b = 1; b < nb; ++b) {
@@ -522,8 +575,8 @@ static void checkC14(Ctx& c, long idx, Rng& r) {
         Vec3 Fin = m * (a + al % cG + w % (w % cG));
         Vec3 Tin = I * al + w % (I * w) + m * (cG % a);
         SpatialVec Rb = mb.findMobilizerReactionOnBodyAtOriginInGround(s);
-        SpatialVec ext = Fapp[b] + Rb;
-        double scale = spMax(Fapp[b]) + spMax(Rb) + Fin.norm() + Tin.norm() + 1;
+        SpatialVec ext = Fapp[b] + Fcons[b] + Rb;
+        double scale = spMax(Fapp[b]) + spMax(Fcons[b]) + spMax(Rb) + Fin.norm() + Tin.norm() + 1;
         for (int cb = 1; cb < nb; ++cb) {
             const MobilizedBody& ch = matter.getMobilizedBody(MobilizedBodyIndex(cb));
             if (ch.getParentMobilizedBody().getMobilizedBodyIndex() != mb.getMobilizedBodyIndex()) continue;
@@ -552,7 +605,8 @@ static void checkC14(Ctx& c, long idx, Rng& r) {
         for (int j = 0; j < nuB; ++j) {
             SpatialVec H = mb.getHCol(s, MobilizerUIndex(j));
             double proj = ~H[0] * Rb[0] + ~H[1] * Rb[1];
-            c.check("projection:H^T*R=f:" + tkey, std::fabs(proj - fapp[u0 + j]), tolc * (spMax(H) * scale * 6 + std::fabs(fapp[u0 + j])), W("reaction projected on mobility axis != applied mobility force", b));
+            double fj = fapp[u0 + j] + fcons[u0 + j];
+            c.check("projection:H^T*R=f:" + tkey, std::fabs(proj - fj), tolc * (spMax(H) * scale * 6 + std::fabs(fj)), W("reaction projected on mobility axis != applied (+constraint) mobility force", b));
         }
     }
     coverModel(c, k.m, grav ? "/g" : "/nog");
